@@ -27,7 +27,8 @@ Section 6 is about framing: `Spec/ClassParse.lean` (a parser written from the st
 back what `Model/ClassWrite.lean` lays out, so every count and `attribute_length` is exact.
 
 Statements that cover only the Code attribute although the property speaks about the whole class file are named
-`…_partial`. Places where the Rust code panics instead of failing cleanly are the `…_witness` theorems.
+`…_partial`. The places where the Rust code used to panic instead of failing cleanly (repaired by `fix:` commits) are the
+`…_is_err` regression theorems of section 7.
 -/
 
 namespace Thm.C02
@@ -276,9 +277,9 @@ theorem local_variable_rows_land (lp : Nat → Option Nat) (vs : List Lv) (rows 
       rows[j]? = some [s, e - s, v.nameIdx, v.descIdx, v.index] :=
   lvRows_spec lp vs rows h
 
-/-- a local variable table is refused cleanly only for a label without offset -/
+/-- a local variable table is refused only for a label without offset or a range that ends before it starts -/
 theorem local_variable_rows_error (lp : Nat → Option Nat) (vs : List Lv) (h : lvRows lp vs = .error .err) :
-    ∃ v ∈ vs, lp v.start = none ∨ lp v.stop = none :=
+    ∃ v ∈ vs, lp v.start = none ∨ lp v.stop = none ∨ ∃ s e, lp v.start = some s ∧ lp v.stop = some e ∧ e < s :=
   lvRows_err lp vs h
 
 /-! ## 5. The constant pool -/
@@ -383,58 +384,58 @@ theorem class_file_reads_back_partial (c : ClassWrite.ClassImg) (h : ClassParse.
 example : ClassParse.code (ClassWrite.codeBody ⟨1, 2, [0xb1], [[0, 1, 0, 0]], [(5, [0, 1, 0, 0, 0, 7])]⟩) =
     some ⟨1, 2, [0xb1], [[0, 1, 0, 0]], [(5, [0, 1, 0, 0, 0, 7])]⟩ := by decide
 
-/-! ## 7. Failure: clean errors, and the places where the Rust code panics instead -/
+/-! ## 7. Failure is always a clean error
 
-/-- **Clean failure.** If the worst-case encoding of the method (every jump in its long form) stays below 65533
-bytes and no `tableswitch` spans more than `i32::MAX` keys, `write_code` never panics: it succeeds or returns the
-explicit error. `_partial`: outside this domain the Rust code panics at the places witnessed below (the property
-asks for clean failure everywhere). -/
-theorem write_fails_cleanly_partial (is : List Insn) (hd : noPanicDom is = true) :
+Until the `fix:` commits 136eeb3 (`if_helper`: `opcode_pos + 1 + 2` in `u16`), dc41ad9 (`tableswitch`: `high - low + 1`
+in `i32`) and f538c01 (`Labels::try_get_range`: `end - start` in `u16`) the Rust code panicked at these three places and
+the theorem below was `write_fails_cleanly_partial` on the domain `noPanicDom`, with the four `_witness` theorems that are
+now the regression theorems `…_is_err`. -/
+
+/-- **Clean failure** (full strength): for every instruction list `write_code`'s code array succeeds or returns the
+explicit error — it never panics and never loops. -/
+theorem write_fails_cleanly (is : List Insn) :
     writeCode is ≠ .panic ∧ writeCode is ≠ .outOfFuel :=
-  ⟨write_no_panic is hd _ _, write_terminates is⟩
+  ⟨write_no_panic is _ _, write_terminates is⟩
 
-example : noPanicDom [.ifc .eq 1, .tableswitch 0 0 1 [0, 1], .goto 0] = true := by decide
-
-/-- conditional branch at offset 65533 whose (backward) target is out of `i16` range: the long form does not fit the
-method any more, but instead of the error "code too large" the unchecked `opcode_pos + 1 + 2` (simple_class_writer.rs:470)
-overflows `u16` -/
-theorem if_at_end_panic_witness :
-    writeCode (List.replicate 65533 (.simple 0) ++ [.ifc .eq 0]) = .panic := by
+/-- regression of 136eeb3: conditional branch at offset 65533 whose (backward) target is out of `i16` range: the long
+form does not fit the method any more — an error (was: the unchecked `opcode_pos + 1 + 2` overflowed `u16`) -/
+theorem if_at_end_is_err :
+    writeCode (List.replicate 65533 (.simple 0) ++ [.ifc .eq 0]) = .err := by
   obtain ⟨s, hs, hw, hp, _, h0⟩ := pass_nops [] 0 65532 (by omega)
   have hlen : (List.replicate 65533 (Insn.simple 0) ++ [Insn.ifc .eq 0]).length + 1 = 65534 + 1 := by
     simp only [List.length_append, List.length_replicate, List.length_cons, List.length_nil]
   unfold writeCode
   rw [hlen]
-  exact if_end_panic _ s hs hw (by omega) h0 .eq 65534
+  exact if_end_err _ s hs hw (by omega) h0 .eq 65534
 
-/-- the last label of a 65536-byte attempt is truncated to 0 (`w.len() as u16`, simple_class_writer.rs:1049); the
-jump to it is then "out of range", the retry marks it wide, and the second attempt panics at line 482 -/
-theorem truncated_last_label_panic_witness :
-    writeCode (List.replicate 65533 (.simple 0) ++ [.ifc .eq 65534]) = .panic := by
+/-- regression of 136eeb3: the last label of a 65536-byte attempt is truncated to 0 (`w.len() as u16`); the jump to it is
+then "out of range", the retry marks it wide, and the second attempt is an error (was: panic in the `wide` arm of
+`if_helper`) -/
+theorem truncated_last_label_is_err :
+    writeCode (List.replicate 65533 (.simple 0) ++ [.ifc .eq 65534]) = .err := by
   obtain ⟨s, hs, hw, hp, hu, _⟩ := pass_nops [] 0 65532 (by omega)
   have hlen : (List.replicate 65533 (Insn.simple 0) ++ [Insn.ifc .eq 65534]).length + 1 = 65533 + 2 := by
     simp only [List.length_append, List.length_replicate, List.length_cons, List.length_nil]
   unfold writeCode
   rw [hlen]
   have hpl : (List.replicate 65533 (Insn.simple 0)).length = 65533 := List.length_replicate
-  have := if_last_label_panic (List.replicate 65533 (Insn.simple 0)) s
+  have := if_last_label_err (List.replicate 65533 (Insn.simple 0)) s
     (fun wide => by rw [pass_replicate_wide]; exact hs) hw (by rw [hpl]; exact hp) hu .eq 65533
   rw [hpl] at this
   exact this
 
-/-- `high - low + 1` (simple_class_writer.rs:928) overflows `i32` -/
-theorem tableswitch_range_panic_witness :
-    writeCode [.tableswitch 0 (-2147483648) 2147483647 [0]] = .panic := by
+/-- regression of dc41ad9: `high - low + 1` would leave `i32` — an error -/
+theorem tableswitch_range_is_err :
+    writeCode [.tableswitch 0 (-2147483648) 2147483647 [0]] = .err := by
   rfl
 
-/-- `end - start` (labels.rs:43) underflows for a local variable whose range ends before it starts -/
-theorem lv_range_panic_witness :
-    ∃ res, writeCode [.simple 0, .simple 0xb1] = .ok res ∧ lvRows res.label [⟨1, 0, 5, 6, 1⟩] = .error .panic := by
+/-- regression of f538c01: a local variable whose range ends before it starts is refused with an error -/
+theorem lv_range_is_err :
+    ∃ res, writeCode [.simple 0, .simple 0xb1] = .ok res ∧ lvRows res.label [⟨1, 0, 5, 6, 1⟩] = .error .err := by
   refine ⟨⟨[0, 0xb1], #[0, 1], []⟩, by rfl, by rfl⟩
 
-/-- … and these are the only panics of the local variable tables -/
-theorem local_variable_rows_panic (lp : Nat → Option Nat) (vs : List Lv) (h : lvRows lp vs = .error .panic) :
-    ∃ v ∈ vs, ∃ s e, lp v.start = some s ∧ lp v.stop = some e ∧ e < s :=
-  lvRows_panic lp vs h
+/-- the local variable tables never panic -/
+theorem local_variable_rows_no_panic (lp : Nat → Option Nat) (vs : List Lv) : lvRows lp vs ≠ .error .panic :=
+  lvRows_no_panic lp vs
 
 end Thm.C02
